@@ -12,7 +12,7 @@ use zipora::succinct::rank_select::{
     MultiDimRankSelect, RankSelectAllOne, RankSelectAllZero, RankSelectBuilder, RankSelectFewOne, RankSelectFewZero, RankSelectInterleaved256,
     RankSelectMixedIL256, RankSelectOps, RankSelectPerformanceOps, RankSelectSE256, RankSelectSE512, RankSelectSimple, SelectionCriteria,
 };
-use zipora::succinct::BitVector;
+use zipora::succinct::{BitVector, BitwiseOp};
 use zverif::enumr::fail;
 use zverif::util::catch;
 use zverif::{Outcome, Tier};
@@ -52,6 +52,105 @@ pub fn bv_from(inp: &Input, build: Build) -> Result<BitVector, String> {
             es(bv.resize(inp.len(), false))?;
             Ok(bv)
         }
+        Build::SetRange => {
+            let n = inp.len();
+            let fill = n > 0 && inp.bits[0];
+            let mut bv = es(BitVector::with_size(n, fill))?;
+            let mut i = 0;
+            while i < n {
+                if inp.bits[i] != fill {
+                    let s = i;
+                    while i < n && inp.bits[i] != fill {
+                        i += 1;
+                    }
+                    es(bv.set_range_simd(s, i, !fill))?;
+                } else {
+                    i += 1;
+                }
+            }
+            Ok(bv)
+        }
+        Build::OrLonger => {
+            let n = inp.len();
+            let mut bv = es(BitVector::with_size(n, false))?;
+            if n > 0 {
+                let mut other = BitVector::new();
+                for &b in &inp.bits {
+                    es(other.push(b))?;
+                }
+                for _ in 0..70 {
+                    es(other.push(true))?;
+                }
+                es(bv.bulk_bitwise_op_simd(&other, BitwiseOp::Or, 0, n))?;
+            }
+            Ok(bv)
+        }
+        Build::Ensure => {
+            let mut bv = BitVector::new();
+            for parity in [0usize, 1] {
+                for (j, &p) in inp.ones_pos.iter().enumerate() {
+                    if j % 2 != parity {
+                        continue;
+                    }
+                    if (j / 2) % 2 == 0 {
+                        es(bv.ensure_set1(p as usize))?;
+                    } else {
+                        es(bv.fast_ensure_set1(p as usize))?;
+                    }
+                }
+            }
+            es(bv.resize(inp.len(), false))?;
+            Ok(bv)
+        }
+        Build::PopInsert => {
+            let n = inp.len();
+            let mut bv = BitVector::new();
+            let m = n / 2;
+            for (i, &b) in inp.bits.iter().enumerate() {
+                if i != m {
+                    es(bv.push(b))?;
+                }
+            }
+            for _ in 0..3 {
+                es(bv.push(true))?;
+            }
+            for _ in 0..3 {
+                bv.pop();
+            }
+            if n > 0 {
+                es(bv.insert(m, inp.bits[m]))?;
+            }
+            Ok(bv)
+        }
+        Build::SetBits => {
+            let n = inp.len();
+            let fill = n > 0 && !inp.bits[0];
+            let mut bv = es(BitVector::with_size(n, fill))?;
+            let mut t = 0usize;
+            for (i, &b) in inp.bits.iter().enumerate() {
+                if b != fill {
+                    if t % 2 == 0 {
+                        es(bv.set(i, b))?;
+                    } else {
+                        let mut r = bv.get_mut(i).ok_or_else(|| "get_mut returned None in range".to_string())?;
+                        es(r.set(b))?;
+                    }
+                    t += 1;
+                }
+            }
+            Ok(bv)
+        }
+        Build::ClearReuse => {
+            let mut bv = BitVector::new();
+            for _ in 0..130 {
+                es(bv.push(true))?;
+            }
+            bv.clear();
+            for &b in &inp.bits {
+                es(bv.push(b))?;
+            }
+            Ok(bv)
+        }
     }
 }
 
@@ -83,7 +182,8 @@ pub fn core_eps_dyn(rs: Rc<dyn RankSelectOps>, select0: bool) -> Vec<Ep> {
     let r = rs.clone();
     v.push(Ep { name: "len", f: EpFn::Len(Box::new(move || r.len())) });
     let r = rs.clone();
-    v.push(Ep { name: "count_ones", f: EpFn::Ones(Box::new(move || r.count_ones())) });
+    // (audit) the derived trait observers count_zeros() / is_empty() are judged together with count_ones()
+    v.push(Ep { name: "count_ones", f: EpFn::Counts(Box::new(move || (r.count_ones(), r.count_zeros(), r.is_empty()))) });
     let r = rs.clone();
     v.push(Ep { name: "get", f: EpFn::Get(Box::new(move |i| r.get(i))) });
     let r = rs.clone();
@@ -103,13 +203,37 @@ fn core_eps<T: RankSelectOps + 'static>(rs: T, select0: bool) -> Vec<Ep> {
     core_eps_dyn(Rc::new(rs), select0)
 }
 
+/// (audit) inherent count observers of a concrete type, judged against the bits: `(what, got, want)` triples
+fn inherent(name: &'static str, f: impl Fn(&Input) -> Vec<(String, usize, usize)> + 'static) -> Ep {
+    custom(name, move |inp| {
+        let rows = match catch(|| f(inp)) {
+            Ok(r) => r,
+            Err(pf) => return Some(fail("count_ones", "inherent/panic", pf.detail)),
+        };
+        q(rows.len());
+        for (what, got, want) in rows {
+            if got != want {
+                return Some(fail("count_ones", "inherent/wrong", format!("{what} = {got}, the sequence says {want} (len {}, {} ones)", inp.len(), inp.ones())));
+            }
+        }
+        None
+    })
+}
+
+/// core entry points + `inherent_observers` of a concrete structure
+fn core_plus<T: RankSelectOps + 'static>(rs: T, select0: bool, rows: impl Fn(&T, &Input) -> Vec<(String, usize, usize)> + 'static) -> Vec<Ep> {
+    let rs = Rc::new(rs);
+    let mut v = core_eps_dyn(rs.clone(), select0);
+    v.push(inherent("inherent_observers", move |inp| rows(&rs, inp)));
+    v
+}
+
 fn def(name: &str, kind: SpaceKind, builds: &[Build], make: impl Fn(&Input, Build) -> Result<Vec<Ep>, String> + 'static) -> Def {
     Def { name: name.to_string(), kind, builds: builds.to_vec(), applicable: None, sample: vec![true, false, true], max_len: None, make: Box::new(make) }
 }
 
 const PR: &[Build] = &[Build::Push, Build::Raw];
 const P: &[Build] = &[Build::Push];
-const T: &[Build] = &[Build::Trunc];
 
 /// wrapper: one dimension of a RankSelectMixedIL256 as an owned RankSelectOps
 struct MixedDim {
@@ -167,6 +291,20 @@ fn il256_eps(rs: RankSelectInterleaved256, perf: bool) -> Vec<Ep> {
         v.push(sel1_bulk("select1_bulk", move |ks| es(r.select1_bulk(ks))));
         let r = rs.clone();
         v.push(sel1_bulk("select1_bulk_optimized", move |ks| es(r.select1_bulk_optimized(ks))));
+        // (audit) get_bit_data(): the stored words must be the sequence, with nothing set beyond len
+        let r = rs.clone();
+        v.push(inherent("inherent_observers", move |inp| {
+            let got = r.get_bit_data();
+            let want = inp.words();
+            let mut rows = vec![("get_bit_data().len()".to_string(), got.len(), want.len())];
+            for (i, (&g, &w)) in got.iter().zip(want.iter()).enumerate() {
+                if g != w {
+                    rows.push((format!("get_bit_data()[{i}] (low half)"), (g & 0xFFFF_FFFF) as usize, (w & 0xFFFF_FFFF) as usize));
+                    rows.push((format!("get_bit_data()[{i}] (high half)"), (g >> 32) as usize, (w >> 32) as usize));
+                }
+            }
+            rows
+        }));
     }
     v
 }
@@ -190,7 +328,8 @@ fn dim_input(inp: &Input, d: usize) -> Input {
         0 => Input::new(inp.bits.clone(), inp.sel),
         1 => inp.transformed(|_, b| !b),
         2 => inp.reversed(),
-        _ => inp.transformed(|i, b| b ^ (i % 2 == 1)),
+        3 => inp.transformed(|i, b| b ^ (i % 2 == 1)),
+        _ => inp.transformed(|i, b| b ^ (i % 3 == 0)),
     }
 }
 
@@ -206,7 +345,7 @@ fn multidim_eps<const D: usize>(inp: &Input, build: Build) -> Result<Vec<Ep>, St
     let (m1, d1) = (m.clone(), dims.clone());
     v.push(custom("bulk_rank_multidim", move |inp| {
         let len = inp.len();
-        q((len + 1) * D);
+        q((len + 1) * D * 2);
         for p in 0..=len {
             let r = match catch(|| m1.bulk_rank_multidim(&[p; D])) {
                 Ok(r) => r,
@@ -215,6 +354,21 @@ fn multidim_eps<const D: usize>(inp: &Input, build: Build) -> Result<Vec<Ep>, St
             for d in 0..D {
                 if r[d] != d1[d].prefix[p] as usize {
                     return Some(fail("rank1", crate_pos_class(p, len), format!("bulk_rank_multidim([{p};{D}])[{d}] = {}, definition says {}", r[d], d1[d].prefix[p])));
+                }
+            }
+            // (audit) a DIFFERENT position in every component: an answer computed from another component's
+            // position (or another dimension's bits at the same position) is only visible here
+            let mut pv = [0usize; D];
+            for d in 0..D {
+                pv[d] = (p * (d + 1) + d * 37) % (len + 1);
+            }
+            let r = match catch(|| m1.bulk_rank_multidim(&pv)) {
+                Ok(r) => r,
+                Err(pf) => return Some(fail("rank1", format!("panic/{}", crate_pos_class(p, len)), pf.detail)),
+            };
+            for d in 0..D {
+                if r[d] != d1[d].prefix[pv[d]] as usize {
+                    return Some(fail("rank1", "distinct_positions", format!("bulk_rank_multidim({pv:?})[{d}] = {}, definition says {}", r[d], d1[d].prefix[pv[d]])));
                 }
             }
         }
@@ -238,6 +392,26 @@ fn multidim_eps<const D: usize>(inp: &Input, build: Build) -> Result<Vec<Ep>, St
             for &k in &ks {
                 let mut qv = [0usize; D];
                 qv[d] = k;
+                match catch(|| m2.bulk_select_multidim(&qv)) {
+                    Ok(Ok(r)) => {
+                        for j in 0..D {
+                            let want = d2[j].ones_pos[qv[j]] as usize;
+                            if r[j] != want {
+                                return Some(fail("select1", "k<n/wrong_pos", format!("bulk_select_multidim({qv:?})[{j}] = {}, definition says {want}", r[j])));
+                            }
+                        }
+                    }
+                    Ok(Err(e)) => return Some(fail("select1", "k<n/err", format!("bulk_select_multidim({qv:?}) = Err({e})"))),
+                    Err(pf) => return Some(fail("select1", "k<n/panic", format!("bulk_select_multidim({qv:?}): {}", pf.detail))),
+                }
+            }
+            // (audit) all components non-zero at once: component j asks for its own k-th one, k = (ones_j - 1 - j) clamped
+            if d == 0 {
+                let mut qv = [0usize; D];
+                for j in 0..D {
+                    qv[j] = d2[j].ones().saturating_sub(1 + j);
+                }
+                q(D);
                 match catch(|| m2.bulk_select_multidim(&qv)) {
                     Ok(Ok(r)) => {
                         for j in 0..D {
@@ -283,8 +457,14 @@ fn crate_pos_class(p: usize, len: usize) -> &'static str {
 }
 
 fn trunc_def(name: &str, select0: bool, mk: impl Fn(BitVector) -> Result<Rc<dyn RankSelectOps>, String> + 'static) -> Def {
+    built_def(name, "trunc", Build::Trunc, select0, mk)
+}
+
+/// one subject `<name>{<tag>}/core`: the BitVector is produced by `build`, the structure is built from it and all core
+/// clauses are checked in a fixed order
+fn built_def(name: &str, tag: &str, build: Build, select0: bool, mk: impl Fn(BitVector) -> Result<Rc<dyn RankSelectOps>, String> + 'static) -> Def {
     let mk = Rc::new(mk);
-    def(&format!("{name}{{trunc}}"), SpaceKind::Bits, T, move |_inp, b| {
+    def(&format!("{name}{{{tag}}}"), SpaceKind::Bits, &[build], move |_inp, b| {
         let mk = mk.clone();
         // the structure is built inside the entry point so that a constructor panic is judged as a case outcome
         Ok(vec![custom("core", move |inp| {
@@ -312,7 +492,7 @@ pub fn all_defs(tier: Tier) -> Vec<Def> {
         let r = bv.clone();
         e.push(Ep { name: "len", f: EpFn::Len(Box::new(move || r.len())) });
         let r = bv.clone();
-        e.push(Ep { name: "count_ones", f: EpFn::Ones(Box::new(move || r.count_ones())) });
+        e.push(Ep { name: "count_ones", f: EpFn::Counts(Box::new(move || (r.count_ones(), r.count_zeros(), r.is_empty()))) });
         let r = bv.clone();
         e.push(Ep { name: "get", f: EpFn::Get(Box::new(move |i| r.get(i))) });
         let r = bv.clone();
@@ -370,11 +550,17 @@ pub fn all_defs(tier: Tier) -> Vec<Def> {
             Ok(core_eps(es(RankSelectSE512::with_options(bv_from(inp, b)?, s0, s1))?, true))
         }));
     }
-    v.push(def("SE256[new]", SpaceKind::Bits, P, |inp, b| Ok(core_eps(es(RankSelectSE256::new(bv_from(inp, b)?))?, true))));
-    v.push(def("SE512[new]", SpaceKind::Bits, P, |inp, b| Ok(core_eps(es(RankSelectSE512::new(bv_from(inp, b)?))?, true))));
+    v.push(def("SE256[new]", SpaceKind::Bits, P, |inp, b| {
+        Ok(core_plus(es(RankSelectSE256::new(bv_from(inp, b)?))?, true, |r, i| vec![("max_rank1()".into(), r.max_rank1(), i.ones()), ("max_rank0()".into(), r.max_rank0(), i.zeros())]))
+    }));
+    v.push(def("SE512[new]", SpaceKind::Bits, P, |inp, b| {
+        Ok(core_plus(es(RankSelectSE512::new(bv_from(inp, b)?))?, true, |r, i| vec![("max_rank1()".into(), r.max_rank1(), i.ones()), ("max_rank0()".into(), r.max_rank0(), i.zeros())]))
+    }));
 
     // ---- simple
-    v.push(def("Simple[new]", SpaceKind::Bits, PR, |inp, b| Ok(core_eps(es(RankSelectSimple::new(bv_from(inp, b)?))?, true))));
+    v.push(def("Simple[new]", SpaceKind::Bits, PR, |inp, b| {
+        Ok(core_plus(es(RankSelectSimple::new(bv_from(inp, b)?))?, true, |r, i| vec![("max_rank1()".into(), r.max_rank1(), i.ones()), ("max_rank0()".into(), r.max_rank0(), i.zeros())]))
+    }));
     v.push(def("Simple[from_words]", SpaceKind::Bits, P, |inp, _| {
         let mut w = inp.words();
         if inp.len() % 64 != 0 {
@@ -387,16 +573,38 @@ pub fn all_defs(tier: Tier) -> Vec<Def> {
 
     // ---- few
     v.push(def("FewOne[from_bitvector]", SpaceKind::Bits, PR, |inp, b| Ok(core_eps(es(RankSelectFewOne::from_bitvector(&bv_from(inp, b)?))?, true))));
-    v.push(def("FewOne[new]", SpaceKind::Bits, P, |inp, _| Ok(core_eps(es(RankSelectFewOne::new(inp.ones_pos.clone(), inp.len()))?, true))));
+    v.push(def("FewOne[new]", SpaceKind::Bits, P, |inp, _| {
+        Ok(core_plus(es(RankSelectFewOne::new(inp.ones_pos.clone(), inp.len()))?, true, |r, i| vec![("num_ones()".into(), r.num_ones(), i.ones()), ("num_zeros()".into(), r.num_zeros(), i.zeros())]))
+    }));
     v.push(def("FewZero[from_bitvector]", SpaceKind::Bits, PR, |inp, b| Ok(core_eps(es(RankSelectFewZero::from_bitvector(&bv_from(inp, b)?))?, true))));
-    v.push(def("FewZero[new]", SpaceKind::Bits, P, |inp, _| Ok(core_eps(es(RankSelectFewZero::new(inp.zeros_pos.clone(), inp.len()))?, true))));
+    v.push(def("FewZero[new]", SpaceKind::Bits, P, |inp, _| {
+        Ok(core_plus(es(RankSelectFewZero::new(inp.zeros_pos.clone(), inp.len()))?, true, |r, i| vec![("num_ones()".into(), r.num_ones(), i.ones()), ("num_zeros()".into(), r.num_zeros(), i.zeros())]))
+    }));
 
     // ---- trivial (only applicable to all-zero / all-one strings)
-    let mut d = def("AllZero", SpaceKind::Bits, P, |inp, _| Ok(core_eps(RankSelectAllZero::new(inp.len()), true)));
+    let mut d = def("AllZero", SpaceKind::Bits, P, |inp, _| {
+        Ok(core_plus(RankSelectAllZero::new(inp.len()), true, |r, i| {
+            let mut v = vec![("max_rank1()".to_string(), r.max_rank1(), i.ones()), ("max_rank0()".to_string(), r.max_rank0(), i.zeros())];
+            for p in 0..i.len() {
+                v.push((format!("is1({p})"), r.is1(p) as usize, i.bits[p] as usize));
+                v.push((format!("is0({p})"), r.is0(p) as usize, !i.bits[p] as usize));
+            }
+            v
+        }))
+    });
     d.applicable = Some(|b| b.iter().all(|&x| !x));
     d.sample = vec![false, false];
     v.push(d);
-    let mut d = def("AllOne", SpaceKind::Bits, P, |inp, _| Ok(core_eps(RankSelectAllOne::new(inp.len()), true)));
+    let mut d = def("AllOne", SpaceKind::Bits, P, |inp, _| {
+        Ok(core_plus(RankSelectAllOne::new(inp.len()), true, |r, i| {
+            let mut v = vec![("max_rank1()".to_string(), r.max_rank1(), i.ones()), ("max_rank0()".to_string(), r.max_rank0(), i.zeros())];
+            for p in 0..i.len() {
+                v.push((format!("is1({p})"), r.is1(p) as usize, i.bits[p] as usize));
+                v.push((format!("is0({p})"), r.is0(p) as usize, !i.bits[p] as usize));
+            }
+            v
+        }))
+    });
     d.applicable = Some(|b| b.iter().all(|&x| x));
     d.sample = vec![true, true];
     v.push(d);
@@ -417,7 +625,25 @@ pub fn all_defs(tier: Tier) -> Vec<Def> {
         ob.extend(std::iter::repeat(true).take(300));
         let other = Input::new(ob, inp.sel);
         let parent = es(RankSelectMixedIL256::new(bv_from(inp, b)?, bv_from(&other, b)?))?;
-        Ok(core_eps(MixedDim { parent, dim: 0 }, false))
+        // (audit) inherent per-dimension observers, including the OTHER (longer) dimension at its own end
+        Ok(core_plus(MixedDim { parent, dim: 0 }, false, |r, i| {
+            let (n, o) = (i.len(), i.ones());
+            let m = &r.parent;
+            vec![
+                ("size_dim(0)".into(), m.size_dim(0), n),
+                ("size_dim(1)".into(), m.size_dim(1), n + 300),
+                ("max_rank1_dim(0)".into(), m.max_rank1_dim(0), o),
+                ("max_rank1_dim(1)".into(), m.max_rank1_dim(1), o + 300),
+                ("rank1_dim(0, size)".into(), m.rank1_dim(0, n), o),
+                ("rank0_dim(0, size)".into(), m.rank0_dim(0, n), n - o),
+                ("rank1_dim(1, size0)".into(), m.rank1_dim(1, n), o),
+                ("rank1_dim(1, size1)".into(), m.rank1_dim(1, n + 300), o + 300),
+                ("rank0_dim(1, size1)".into(), m.rank0_dim(1, n + 300), n - o),
+                ("select1_dim(1, last) ".into(), m.select1_dim(1, o + 299).unwrap_or(usize::MAX), n + 299),
+                ("get_dim(1, last)".into(), m.get_dim(1, n + 299).map(|b| b as usize).unwrap_or(2), 1),
+                ("get_dim(0, size) is None".into(), m.get_dim(0, n).is_none() as usize, 1),
+            ]
+        }))
     }));
     v.push(def("MixedIL256[dim1,other=half_length]", SpaceKind::Bits, P, |inp, b| {
         let other = Input::new(inp.bits[..inp.len() / 2].iter().map(|x| !x).collect(), inp.sel);
@@ -432,7 +658,18 @@ pub fn all_defs(tier: Tier) -> Vec<Def> {
             Ok(core_eps(es(AdaptiveRankSelect::with_criteria(bv_from(inp, b)?, criteria(c)))?, true))
         }));
     }
-    v.push(def("Adaptive[new]", SpaceKind::Bits, P, |inp, b| Ok(core_eps(es(AdaptiveRankSelect::new(bv_from(inp, b)?))?, true))));
+    v.push(def("Adaptive[new]", SpaceKind::Bits, P, |inp, b| {
+        // (audit) the data profile the choice is made from must describe the sequence
+        Ok(core_plus(es(AdaptiveRankSelect::new(bv_from(inp, b)?))?, true, |r, i| {
+            let p = r.data_profile();
+            let dens = if i.len() == 0 { 0.0 } else { i.ones() as f64 / i.len() as f64 };
+            vec![
+                ("data_profile().total_bits".into(), p.total_bits, i.len()),
+                ("data_profile().ones_count".into(), p.ones_count, i.ones()),
+                ("data_profile().density == ones/len".into(), (p.density == dens) as usize, 1),
+            ]
+        }))
+    }));
     v.push(def("AdaptiveMultiDim[new_dual,other=complement]", SpaceKind::Bits, PR, |inp, b| {
         let other = inp.transformed(|_, x| !x);
         Ok(core_eps(es(AdaptiveMultiDimensional::new_dual(bv_from(inp, b)?, bv_from(&other, b)?))?, true))
@@ -442,6 +679,8 @@ pub fn all_defs(tier: Tier) -> Vec<Def> {
     v.push(def("MultiDim<2>", SpaceKind::Bits, P, |inp, b| multidim_eps::<2>(inp, b)));
     v.push(def("MultiDim<3>", SpaceKind::Bits, P, |inp, b| multidim_eps::<3>(inp, b)));
     v.push(def("MultiDim<4>", SpaceKind::Bits, P, |inp, b| multidim_eps::<4>(inp, b)));
+    // (audit) more than 4 dimensions takes the scalar branch of bulk_rank_multidim on every CPU tier
+    v.push(def("MultiDim<5>", SpaceKind::Bits, P, |inp, b| multidim_eps::<5>(inp, b)));
 
     // ---- factory (a handful of inputs is enough: it either builds something or it does not)
     let mut d = def("RankSelectFactory", SpaceKind::Bits, P, |inp, b| {
@@ -477,6 +716,23 @@ pub fn all_defs(tier: Tier) -> Vec<Def> {
     }));
     v.push(trunc_def("Adaptive[new]", true, |bv| Ok(Rc::new(es(AdaptiveRankSelect::new(bv))?) as Rc<dyn RankSelectOps>)));
 
+    // ---- (audit) BitVector states produced by the other public constructors / mutators: the structures that copy
+    //      `blocks()` (SE256, SE512, Simple), the one that re-extracts words (IL256) and BitVector's own rank
+    for (tag, build) in [
+        ("set_range", Build::SetRange),
+        ("or_longer", Build::OrLonger),
+        ("ensure_set1", Build::Ensure),
+        ("pop_insert", Build::PopInsert),
+        ("set_bits", Build::SetBits),
+        ("clear_reuse", Build::ClearReuse),
+    ] {
+        v.push(built_def("BitVector", tag, build, false, |bv| Ok(Rc::new(BvOps(bv)) as Rc<dyn RankSelectOps>)));
+        v.push(built_def("IL256[new]", tag, build, true, |bv| Ok(Rc::new(es(RankSelectInterleaved256::new(bv))?) as Rc<dyn RankSelectOps>)));
+        v.push(built_def("SE256[new]", tag, build, true, |bv| Ok(Rc::new(es(RankSelectSE256::new(bv))?) as Rc<dyn RankSelectOps>)));
+        v.push(built_def("SE512[new]", tag, build, true, |bv| Ok(Rc::new(es(RankSelectSE512::new(bv))?) as Rc<dyn RankSelectOps>)));
+        v.push(built_def("Simple[new]", tag, build, true, |bv| Ok(Rc::new(es(RankSelectSimple::new(bv))?) as Rc<dyn RankSelectOps>)));
+    }
+
     // ---- word-array entry points (no length: sequence = padded words)
     v.push(def("simd", SpaceKind::Words, P, |inp, _| {
         let w = Rc::new(inp.words());
@@ -496,6 +752,20 @@ pub fn all_defs(tier: Tier) -> Vec<Def> {
         e.push(rank1_bulk("rank_bulk", move |ps| Bmi2BlockOps::rank_bulk(&r, ps)));
         let r = w.clone();
         e.push(sel1_bulk("select_bulk", move |ks| es(Bmi2BlockOps::select_bulk(&r, ks))));
+        let r = w.clone();
+        // (audit) the AVX2 branch needs >= 4 words; the second component is the leading-zero count of the word
+        e.push(custom("process_blocks_simd", move |_| {
+            let got = Bmi2BlockOps::process_blocks_simd(&r);
+            if let Some(o) = popcounts_check(&r, got.iter().map(|x| x.0 as usize).collect()) {
+                return Some(o);
+            }
+            for (i, &w) in r.iter().enumerate() {
+                if got[i].1 != w.leading_zeros() {
+                    return Some(fail("count_ones", "leading_zeros", format!("process_blocks_simd word {i} ({w:#x}): leading zeros {}, definition says {}", got[i].1, w.leading_zeros())));
+                }
+            }
+            None
+        }));
         Ok(e)
     }));
     v.push(def("Bmi2Accelerator", SpaceKind::Words, P, |inp, _| {
@@ -553,6 +823,13 @@ pub fn all_defs(tier: Tier) -> Vec<Def> {
                     if got != want {
                         return Some(fail("rank1", "range", format!("count_ones_range({w:#x},{start},{len}) = {got}, definition says {want}")));
                     }
+                }
+                // (audit) the bulk variant, all ranges starting here in one call
+                let ranges: Vec<(u32, u32)> = (0..=(64 - start)).map(|l| (start, l)).collect();
+                let got = Bmi2RangeOps::count_ones_multi_range(w, &ranges);
+                let want: Vec<u32> = ranges.iter().map(|&(s, l)| (inp.prefix[(s + l) as usize] - inp.prefix[s as usize]) as u32).collect();
+                if got != want {
+                    return Some(fail("rank1", "range", format!("count_ones_multi_range({w:#x}, start {start}) = {got:?}, definition says {want:?}")));
                 }
             }
             None
